@@ -8,11 +8,11 @@ GEN = ['Histogram']
 LEAN_TARGETS = ['OtelVerif.Props.C07']
 THEOREMS = ['Otel.C07.' + t for t in (
     'bucket_le_length', 'bucket_spec', 'bucket_inBucket', 'bucket_unique', 'bucket_last_iff',
-    'hist_eq_closed', 'hist_wf', 'boundaries_eq', 'counts_eq_spec', 'counts_eq_spec_double', 'counts_eq_spec_long_partial', 'counts_sum_eq_count', 'count_eq', 'sum_eq',
+    'hist_eq_closed', 'hist_wf', 'boundaries_eq', 'counts_eq_spec', 'counts_eq_spec_double', 'counts_eq_spec_long', 'counts_sum_eq_count', 'count_eq', 'sum_eq',
     'min_eq', 'max_eq', 'min_max_double', 'min_max_long', 'isDouble_range', 'long_in_range',
     'doubleMinInit_eq', 'doubleMaxInit_eq', 'longMinInit_eq', 'longMaxInit_eq',
     'long_default_boundaries', 'double_default_boundaries', 'default_boundaries_sorted', 'recordMinMax_defaults',
-    'conv_double', 'conv_long_exact', 'bucket_spec_long_partial', 'bucket_spec_long_witness',
+    'conv_double', 'conv_long', 'boundaryLess_iff', 'bucketLong_eq_bucket', 'aggregateLongC_eq', 'histLongC_eq', 'bucket_spec_long', 'bucket_long_aswas_witness',
     'merge_hom', 'merge_new_left', 'mergeL_hom', 'mergeR_hom', 'hist_perm',
     'storage_conserves_count', 'storage_conserves_sum', 'storage_series_count_and_sum', 'histHom', 'storage_series_point')] + [
     'Otel.Series.run_map', 'Otel.Series.run_key_totals', 'Otel.Series.run_totals', 'Otel.Series.run_nodup']
@@ -75,6 +75,10 @@ def corpus():
     c(f'hist agg d {cfg_tok([], True)} L s1 {bits(1.0)},{bits(2.0)}/-/{bits(0.0)}', 'empty-boundaries')
     c(f'hist agg d {cfg_tok([DBL_MAX], True)} L s0 {bits(DBL_MAX)},{bits(ulp_dn(DBL_MAX))}', 'huge')
     c(f'hist agg l {cfg_tok([2.0 ** 53], True)} L s1 9007199254740991,9007199254740992', 'long-2^53')
+    # D24 (repaired): int64 values no double represents, next to the boundary they used to be rounded onto
+    c(f'hist agg l {cfg_tok([2.0 ** 60], True)} L s1 {2 ** 60 + 19},{2 ** 60}', 'D24-long-beyond-2^53')
+    c(f'hist agg l {cfg_tok([2.0 ** 53, 2.0 ** 63, 1e300], True)} L s1 {2 ** 53 + 1},{2 ** 62 + 1},{-2 ** 62 - 1},{-2 ** 53 - 1}', 'D24-long-extremes')
+    c(f'hist agg l {cfg_tok([-1e300, 2.0 ** 63], True)} L s1 {2 ** 63 - 1}/-9223372036854775808', 'D24-long-extremes')
     return out
 
 
@@ -157,7 +161,7 @@ def rand_long_value(rng, bs, nonneg, big_ok):
     if r < 0.65 and not nonneg:
         return -rng.randrange(0, 1 << 40)
     if r < 0.70 and big_ok:
-        return rng.choice([2 ** 53 - 1, 2 ** 53, 2 ** 55 + 4, 2 ** 56])       # exactly representable or below 2^53
+        return rng.choice([2 ** 53 - 1, 2 ** 53, 2 ** 53 + 1, 2 ** 55 + 3, 2 ** 55 + 4, 2 ** 56, 2 ** 57 - 1])   # also values no double represents
     return rng.randrange(0, rng.choice([10, 100, 2000, 20000]))
 
 
@@ -202,7 +206,7 @@ def gen_agg(rng, out, n):
 
 
 def gen_long_beyond_2_53(rng, out, n):
-    """int64 values that are not exactly representable as double, next to a boundary (the documented finding)"""
+    """int64 values that are not exactly representable as double, next to a boundary (D24: bucketed by their rounded value before the repair)"""
     for _ in range(n):
         e = rng.randrange(53, 62)
         b = float(2 ** e)
@@ -315,8 +319,6 @@ def check_point(p, bs, mm, vals, with_sum, kind):
         return ('count-is-number-of-recorded-values', f'{p["n"]} vs {len(vals)}')
     exp = spec_counts(bs, vals)
     if p['c'] != exp:
-        if kind == 'l' and any(abs(v) > 2 ** 53 for v in vals) and p['c'] == spec_counts(bs, [Fraction(float(int(v))) for v in vals]):
-            return ('bucket-of-int64-beyond-2^53', f'{p["c"]} vs {exp}: the int64 value is rounded to double before it is compared with the boundary')
         return ('each-value-in-its-bucket', f'{p["c"]} vs {exp}')
     if with_sum and p['s'] != sum(vals, Fraction(0)):
         return ('sum-is-sum-of-values', f'{p["s"]} vs {sum(vals, Fraction(0))}')
@@ -406,8 +408,8 @@ LEVEL_TEXT = ('Lean 4 theorems over an executable model of Long/DoubleHistogramA
               'aggregation classes and through MeterProvider + view + explicit delta/cumulative readers under ASan/UBSan.')
 LEVEL_NOTE = ('Trusted: Lean kernel; tools/gen_c07.py; harness, generators; std::lower_bound modelled by its specification. '
               'Partial: floating-point rounding of sum_ and int64 overflow are not modelled (sum compared only in the exact range); '
-              'for int64 instruments a value beyond 2^53 is rounded to double before the boundary comparison '
-              '(bucket_spec_long_partial + _witness, finding bucket-of-int64-beyond-2^53); storage_series_point assumes fewer '
+              'int64 values are compared with the double boundaries exactly (boundaryLess_iff, bucket_spec_long for every int64, '
+              'also beyond 2^53, since the repair D24; bucket_long_aswas_witness keeps the old behaviour kernel-checked); storage_series_point assumes fewer '
               'measurements than the cardinality limit (no folding) and an enumeration order of the hash tables that does not depend '
               'on the aggregation values; beyond the limit only count and sum totals are carried (storage_conserves_count/_sum).')
 DESIGN_REF = 'DESIGN.md section 4, C07'
